@@ -11,7 +11,8 @@ PUBS = ["00" * 32, "00" * 31 + "01", "ab" * 31 + "00", "ab" * 31 + "01", "ff" * 
 QKINDS = [0, 1, 2, 256, 257, 65535, 5, 30000]  # adjacent (k, k+1, k*256)
 LONG = "L" * 260
 VLONG = "V" * 480  # longer than an LMDB key can hold (511 - prefix - suffix): the LMDB backend refuses such events
-QVALS = ["a", "ab", "abc", "ab\x00", "", "b", "a b", ":x", "a :b", "'", "é", "%", LONG, LONG + "x", VLONG]
+QVALS = ["a", "ab", "abc", "ab\x00", "", "b", "a b", ":x", "a :b", "'", "é", "%", LONG, LONG + "x", VLONG,
+         "A", "Ab", "AB", "a ", "É", "_"]  # case / trailing-space / LIKE-wildcard twins of the values above
 QNAMES = ["t", "t", "p", "e", "q", "'"]
 TS = [E.T0 - 2, E.T0 - 1, E.T0, E.T0 + 1, E.T0 + 2]
 TS_EDGE = [1, 2, 2**24 - 1, 2**24, 2**24 + 1, 2**31 - 1]
